@@ -8,7 +8,7 @@
 From VF Require Import Base.Prelude Gen.Enums Gen.Configs Gen.Policy Gen.Registry Gen.Checks
      Gen.MatDesc Gen.InstChecks Gen.Scopes Model.Recipe Model.Check Model.Graph
      Model.Plan Model.Perform Spec.WF Proofs.ListFacts Proofs.PerformStep Proofs.ModeProofs
-     Proofs.UntouchedProofs.
+     Proofs.UntouchedProofs Model.Insts Proofs.InstsCover.
 
 (* (a) mode -> per-operand transformation, for EVERY config in one of the
    three modes (static-range: integer compute with an activation config;
@@ -224,6 +224,71 @@ Proof.
   - repeat constructor; cbn; lia.
   - intros ti i [<-|[]] _ [<-|[<-|[]]] _; cbn; lia.
 Qed.
+
+(* (e) the instruction generator loses no consumer: for EVERY plan entry of a
+   tensor, every consumer c and every position d of c's transformation chain,
+   the emitted list holds an instruction that lists c's operator and carries
+   c's transformation at d with c's parameters (`carries`) — or, at position 0
+   only and only against a producer whose last transformation is
+   ADD_DEQUANTIZE, its documented vertical rewrite (`rewritten`:
+   DEQUANTIZE;QUANTIZE with equal parameters -> the tensor stays quantized,
+   DEQUANTIZE;NO_QUANTIZE -> one DEQUANTIZE with the producer's parameters).
+   Grouping (horizontal optimisation) therefore never merges a consumer into
+   a group whose instruction differs from what the plan gave that consumer. *)
+Theorem C03_every_consumer_gets_its_planned_transformations :
+  forall im p ti cs k c d t,
+    quant_params_to_insts im p = Ok ti ->
+    ttp_consumers p = Some cs -> nth_opt cs k = Some c -> nth_opt (o2t_trans c) d = Some t ->
+    exists i, In i (ti_insts ti) /\
+      ( carries c t i
+        \/ (d = 0%nat /\ exists info pr, lookup_info im (ttp_name p) = Ok info /\
+              last_producer info p = Some pr /\ rewritten pr c t i) ).
+Proof. exact insts_cover_consumers. Qed.
+Print Assumptions C03_every_consumer_gets_its_planned_transformations.
+
+(* (f) ... and invents nothing: every emitted instruction is one of the
+   producer's (its consumer list a sub-list of the tensor's readers), or
+   lists only operators whose plan entry holds exactly that transformation
+   with those parameters at one position d (`as_planned`), or — against an
+   ADD_DEQUANTIZE producer — is the rewrite of what those operators asked for
+   at position 0 (`rewrite_of`: "keep the tensor quantized with the producer's
+   parameters" for readers that planned ADD_QUANTIZE, "one DEQUANTIZE with the
+   producer's parameters" for readers that planned NO_QUANTIZE). *)
+Theorem C03_generator_invents_no_instruction :
+  forall im p ti i,
+    quant_params_to_insts im p = Ok ti -> In i (ti_insts ti) ->
+    exists info, lookup_info im (ttp_name p) = Ok info /\
+    ( (exists pp, ttp_producer p = Some pp /\ In (i_trans i) (o2t_trans pp) /\
+                  i_params i = o2t_params pp /\ incl (i_consumers i) (gi_consumers info))
+      \/ (exists d, as_planned (consumers_list p) d i)
+      \/ (exists pr, last_producer info p = Some pr /\ rewrite_of (consumers_list p) pr i) ).
+Proof. exact insts_exact. Qed.
+Print Assumptions C03_generator_invents_no_instruction.
+
+(* non-vacuity: a quantized producer (DEQUANTIZE with A) read by
+   op 3 (QUANTIZE with A), ops 4 and 6 (QUANTIZE with B, then DEQUANTIZE) and
+   op 5 (float): all three rewrites fire and ops 4, 6 are merged *)
+Definition cov_pA : qparam := {| qp_id := 1; qp_uniform := true; qp_bits := 8; qp_has_data := false |}.
+Definition cov_pB : qparam := {| qp_id := 2; qp_uniform := true; qp_bits := 8; qp_has_data := false |}.
+Definition cov_im : list ((Z * list Z) * tinfo) :=
+  [((7, []), {| gi_tensor := 2; gi_sg := 0; gi_producer := 1; gi_consumers := [3; 4; 5; 6] |})].
+Definition cov_p : ttp :=
+  {| ttp_name := (7, []);
+     ttp_producer := Some {| o2t_op := 1; o2t_trans := [Tr_ADD_DEQUANTIZE]; o2t_params := Some cov_pA |};
+     ttp_consumers := Some [ {| o2t_op := 3; o2t_trans := [Tr_ADD_QUANTIZE]; o2t_params := Some cov_pA |};
+                             {| o2t_op := 4; o2t_trans := [Tr_ADD_QUANTIZE; Tr_ADD_DEQUANTIZE]; o2t_params := Some cov_pB |};
+                             {| o2t_op := 5; o2t_trans := [Tr_NO_QUANTIZE]; o2t_params := None |};
+                             {| o2t_op := 6; o2t_trans := [Tr_ADD_QUANTIZE; Tr_ADD_DEQUANTIZE]; o2t_params := Some cov_pB |} ] |}.
+Example C03_cover_nonvacuous :
+  match quant_params_to_insts cov_im cov_p with
+  | Ok ti => map (fun i => (qtrans_code (i_trans i), i_consumers i, option_map qp_id (i_params i))) (ti_insts ti)
+             = [ (qtrans_code Tr_QUANTIZE_TENSOR, [3], Some 1);
+                 (qtrans_code Tr_QUANTIZE_TENSOR, [4; 6], Some 1);
+                 (qtrans_code Tr_ADD_QUANTIZE, [4; 6], Some 2);
+                 (qtrans_code Tr_ADD_DEQUANTIZE, [5], Some 1);
+                 (qtrans_code Tr_ADD_DEQUANTIZE, [4; 6], Some 2) ]
+  | Err _ => False end.
+Proof. vm_compute. reflexivity. Qed.
 
 Example C03_nonvacuous :
   In ex_static policy_all_configs /\ In ex_wo policy_all_configs /\
